@@ -170,5 +170,10 @@ FromStabOK == Rec.op = "fromstab" =>
     /\ (~anti) => /\ Has("post") /\ TOK(Rec.post)
                   /\ TGrp(Rec.post) = Span(ops, n)
                   /\ Rec.post.r = n - Len(ops)
+\* L2 conformance (model drift, never a verdict): the transcribed projection of Tableau.tla gives the recorded tableau bit for bit
+Drift_FromStab == (Rec.op = "fromstab" /\ Has("post") /\ Rec.pkg = "py") =>
+    LET ops == DecL(Rec.stabs)
+        t == ImplStabilizerState(ops, Rec.n) IN
+    (\A i, j \in 1..Len(ops) : ~Anti(ops[i], ops[j])) => (t.rows = TRows(Rec.post) /\ t.r = Rec.post.r)
 NoCrashS == ~Has("exc")
 =============================================================================
